@@ -49,13 +49,13 @@ func (e *Engine) verifyFunction(fc *FuncContract, mode *Mode) (vc *VC) {
 		fr.lets[l.Name] = Binding{term: tv.t, typ: tv.typ, g: tv.g}
 	}
 	for _, c := range fc.Axioms {
-		vc.assume(tTrue, fr.evalClause(c, st, nil))
+		vc.assume(tTrue, fr.evalAssume(c, st, nil))
 	}
 	for _, c := range e.db.axioms {
-		vc.assume(tTrue, fr.evalClause(c, st, nil))
+		vc.assume(tTrue, fr.evalAssume(c, st, nil))
 	}
 	for _, c := range fc.Requires {
-		vc.assume(tTrue, fr.evalClause(c, st, nil))
+		vc.assume(tTrue, fr.evalAssume(c, st, nil))
 	}
 	vc.cover("cover#requires:"+shortType(fc.Key), fr.topProps, tTrue, pos)
 	for _, c := range fc.Lemmas {
@@ -94,7 +94,7 @@ func (e *Engine) verifyFunction(fc *FuncContract, mode *Mode) (vc *VC) {
 				vc.unsupportedf("defines: unknown ghost %s", g)
 			}
 		}
-		vc.assume(out.guard, fr.evalClause(c, out, nil))
+		vc.assume(out.guard, fr.evalAssume(c, out, nil))
 		vc.assumptions["ghost definition (not a proof obligation): "+shortType(fc.Key)+": "+c.Src] = true
 	}
 	for _, c := range fc.Ensures {
